@@ -138,6 +138,7 @@ impl Hist {
                     return;
                 };
                 let mut taken: Option<Value> = None;
+                let mut check_len = false;
                 let (cop, res): (String, String) = match choice {
                     4 | 5 => match slot.as_array_mut() {
                         Some(a) => {
@@ -151,6 +152,13 @@ impl Hist {
                         None => ("pop".into(), "reject".into()),
                     },
                     7 => match slot.as_array_mut() {
+                        Some(a) if rng.chance(1, 5) => {
+                            // out of range: the call is refused (it panics, as Vec does) and must leave the array as it was
+                            let i = a.len() + 1 + rng.below(3);
+                            let r = guarded(|| a.insert(i, x));
+                            check_len = true;
+                            (format!("ins={i}={xd}"), if r.is_err() { "reject".into() } else { "u".into() })
+                        }
                         Some(a) => {
                             let i = rng.below(a.len() + 1);
                             a.insert(i, x);
@@ -159,6 +167,14 @@ impl Hist {
                         None => (format!("ins=0={xd}"), "reject".into()),
                     },
                     8 => match slot.as_array_mut() {
+                        Some(a) if rng.chance(1, 5) => {
+                            let i = a.len() + rng.below(3);
+                            let r = guarded(|| {
+                                a.remove(i);
+                            });
+                            check_len = true;
+                            (format!("rem={i}"), if r.is_err() { "reject".into() } else { "u".into() })
+                        }
                         Some(a) if !a.is_empty() => {
                             let i = rng.below(a.len());
                             a.remove(i);
@@ -168,6 +184,12 @@ impl Hist {
                         None => ("rem=0".into(), "reject".into()),
                     },
                     9 => match slot.as_array_mut() {
+                        Some(a) if rng.chance(1, 5) => {
+                            let i = a.len() + rng.below(3);
+                            let r = guarded(|| a.swap_remove(i));
+                            check_len = true;
+                            (format!("swaprem={i}"), match r { Err(_) => "reject".into(), Ok(v) => sorted_dump(&v) })
+                        }
                         Some(a) if !a.is_empty() => {
                             let i = rng.below(a.len());
                             let v = a.swap_remove(i);
@@ -416,6 +438,13 @@ impl Hist {
                     self.live.push(Some(v));
                 }
                 self.record(format!("O{h}:{pa}:{cop}"), res);
+                if check_len {
+                    // a refused operation leaves the container untouched: observe it at once
+                    let l = self.live[h].as_ref().unwrap().pointer(ptr.iter()).and_then(|s| s.as_array().map(|a| a.len()));
+                    self.record(format!("O{h}:{pa}:len"), l.map(|n| format!("#{n}")).unwrap_or("reject".into()));
+                    let r = self.live[h].as_ref().unwrap().pointer(ptr.iter()).map(sorted_dump).unwrap_or("none".into());
+                    self.record(format!("G{h}:{pa}"), r);
+                }
             }
         }
     }
